@@ -75,6 +75,10 @@ register("C06", "exploration", "E1 explore", "deviation-bounded exhaustive enume
          "Every ordered member list of <= 3 (thorough 4, selected 5) entries over 5 kinds under every single layout deviation (and every pair for richer lists) over folder compositions, 18 chains, NumUnpackStream, CRC placement, packed CRCs, pack gaps, kDummy, EmptyFile, all-defined shortcuts, 6 header encodings, AES property shapes, undefined metadata, trailing bytes; plus all third-party fixtures. py7zr's names, kinds, sizes, times, attributes, bytes and on-disk kinds must equal the logical archive.",
          "ref7z self-checks every archive it writes; reverse coder order is deliberately not part of the layout space (not named by the property, no writer emits it).", "DESIGN.md section 5 C06")
 
+register("C03", "exploration", "E1 explore", "exhaustive enumeration of hostile entry sequences (all singles, all ordered pairs/triples over reduced alphabets, link chains) extracted by the real code into a monitored jail",
+         "Archives are built by the independent writer; every sequence is extracted under 7 configurations (destination absolute/relative/None, pre-populated, stream=sequential vs path=per-member folders with workers in forward and reverse order). Oracle: byte/mode/mtime/ctime snapshot of everything around the destination before vs after, plus an audit-hook tripwire. The hostile space is a small alphabet closed under the shortcuts visible in the code (lexical canonicalisation, link creation, duplicate names), so exhaustive sequences are the right level.",
+         "Runs as uid 0. Interleavings of the parallel branch are reduced to the two extreme orders (C13 explores schedules on benign archives).", "DESIGN.md section 5 C03")
+
 NOT_YET = {}
 
 
